@@ -462,6 +462,27 @@ def drv_fc_kernels(ph, w, a, st):
     out["f2c"] = full_fc_to_compact_fc(p2.primitive, np.array(fc_full))
     model["compact_to_full:differs-from-model"] = float(np.max(np.abs(out["c2f"] - fc_full))) / fsc
     model["full_to_compact:differs-from-model"] = float(np.max(np.abs(out["f2c"] - fc_full[p2.primitive.p2s_map]))) / fsc
+    # compact kernels against their full-array counterparts on force constants that are translation invariant by
+    # construction (expanded from a compact array) but have NO index-permutation symmetry: every 3x3 block then shows
+    # whether it was transposed / averaged with the right partner (pairs i, i + t with 2t a supercell vector are their own partner)
+    import phonopy._phonopy as phonoc
+    from phonopy.harmonic.force_constants import get_nsym_list_and_s2pp
+
+    prim = p2.primitive
+    rc_ = np.random.Generator(np.random.PCG64((st["seed"] ^ 0x5A5A) & 0xFFFFFFFF))
+    cc = np.array(rc_.standard_normal((len(prim), len(p2.supercell), 3, 3)), dtype="double", order="C")
+    Fc = compact_fc_to_full_fc(prim, cc.copy())
+    s2pp_, nsym_ = get_nsym_list_and_s2pp(prim.s2p_map, prim.p2p_map, prim.atomic_permutations)
+    ct = cc.copy()
+    phonoc.transpose_compact_fc(ct, prim.atomic_permutations, s2pp_, prim.p2s_map, nsym_)
+    out["transposed_compact_random"] = ct
+    model["transpose_compact_fc:differs-from-full-array-transpose"] = float(np.max(np.abs(ct - Fc.transpose(1, 0, 3, 2)[prim.p2s_map])))
+    cs = cc.copy()
+    symmetrize_compact_force_constants(cs, prim, level=level)
+    Fs = Fc.copy()
+    symmetrize_force_constants(Fs, level=level)
+    out["sym_compact_random"] = cs
+    model["perm_trans_symmetrize_compact_fc:differs-from-full-array-routine"] = float(np.max(np.abs(cs - Fs[prim.p2s_map])))
     out["model_residuals"] = np.array([model[k] for k in sorted(model)])
     st["model_residual_names"] = sorted(model)
     p2.force_constants = np.array(fc_full)
